@@ -345,12 +345,13 @@ impl<R: Round, const B: Word> FBig<R, B> {
                 significand /= B as DoubleWord;
                 exponent += 1;
             }
-            while let Some(next) = pow.checked_mul(B as DoubleWord) {
+            loop {
                 digits += 1;
-                if next > significand {
-                    break;
+                // (an overflow means that the next power is larger than any significand)
+                match pow.checked_mul(B as DoubleWord) {
+                    Some(next) if next <= significand => pow = next,
+                    _ => break,
                 }
-                pow = next;
             }
         }
 
